@@ -1566,6 +1566,110 @@ func c14GenGoodRule(r *vf.Rand, proxy bool, def *c14Default) c14Rule {
 	return rl
 }
 
+// A rule derived from an earlier rule of the same factory's history: it re-uses some of that rule's stage
+// lists byte for byte and varies the others, so that anything the factory (or the processor, the repository)
+// keeps between two CreateRule calls and keys by part of a definition shows: same execute / other on_error,
+// same on_error / other execute, the same definition with one broken reference, the same pipelines with other
+// matcher-level settings.
+func c14Derive(r *vf.Rand, base c14Rule, proxy bool, def *c14Default) (c14Rule, string) {
+	cp := func(ss []c14Step) []c14Step { return append([]c14Step(nil), ss...) }
+	d := base
+	d.Exec, d.Eh = cp(base.Exec), cp(base.Eh)
+	how := ""
+
+	breakStep := func(st c14Step, eh bool) c14Step {
+		switch r.Intn(4) {
+		case 0:
+			st.Cfg = "badovr"
+		case 1:
+			st.If = vf.Pick(r, []string{"badcel", "empty", "notstr"})
+		default:
+			for _, k := range []*c14Key{&st.Authn, &st.Authz, &st.Ctx, &st.Fin, &st.Eh} {
+				if k.Present {
+					k.Known = false
+				}
+			}
+		}
+
+		if !eh && st.Authn.Present && st.If != "nil" {
+			st.If, st.Cfg = "nil", "badovr"
+		}
+
+		return st
+	}
+
+	switch x := r.Intn(100); {
+	case x < 30: // same execute, other on_error (none / fresh / one handler dropped)
+		how = "same-execute"
+
+		switch r.Intn(3) {
+		case 0:
+			d.Eh = nil
+		case 1:
+			d.Eh = c14GenEh(r, 0)
+			if len(d.Eh) == 0 && len(base.Eh) == 0 {
+				d.Eh = []c14Step{c14GenStep(r, 4, 0)}
+			}
+		default:
+			if len(d.Eh) > 0 {
+				d.Eh = d.Eh[:len(d.Eh)-1]
+			} else {
+				d.Eh = []c14Step{c14GenStep(r, 4, 0)}
+			}
+		}
+	case x < 50: // same on_error, other execute
+		how = "same-on-error"
+		d.Exec = c14GenGoodRule(r, proxy, def).Exec
+	case x < 65: // same everything, one broken reference in on_error
+		how = "broken-on-error"
+		if len(d.Eh) == 0 {
+			d.Eh = []c14Step{c14GenStep(r, 4, 0)}
+		}
+
+		i := r.Intn(len(d.Eh))
+		d.Eh[i] = breakStep(d.Eh[i], true)
+	case x < 78: // same everything, one broken reference in execute
+		how = "broken-execute"
+		if len(d.Exec) == 0 {
+			d.Exec = []c14Step{c14GenStep(r, 0, 0)}
+		}
+
+		i := r.Intn(len(d.Exec))
+		d.Exec[i] = breakStep(d.Exec[i], false)
+	case x < 90: // same pipelines, other settings around them
+		how = "same-pipelines"
+		d.Extra = c14GenExtra(r)
+
+		if r.Bool() {
+			d.Bt = nil
+		} else {
+			b := r.Bool()
+			d.Bt = &b
+		}
+	default: // one stage of execute re-used, the rest new: keep the authenticators, replace what follows
+		how = "same-authenticators"
+
+		var au []c14Step
+
+		for _, st := range base.Exec {
+			if st.Authn.Present {
+				au = append(au, st)
+			}
+		}
+
+		rest := c14GenGoodRule(r, proxy, def).Exec
+		for _, st := range rest {
+			if !st.Authn.Present {
+				au = append(au, st)
+			}
+		}
+
+		d.Exec = au
+	}
+
+	return d, how
+}
+
 func c14GenSet(r *vf.Rand) c14SetCase {
 	first := c14Gen(r)
 	c := c14SetCase{Proxy: first.Proxy, Def: first.Def, Rules: []c14Rule{first.Rule}, Op: "create", Version: config2.CurrentRuleSetVersion}
@@ -1574,8 +1678,23 @@ func c14GenSet(r *vf.Rand) c14SetCase {
 		c.Rules[0] = c14GenGoodRule(r, c.Proxy, c.Def)
 	}
 
-	// further rules are mostly well-formed
+	// further rules are mostly well-formed; a third of them re-uses stage lists of an earlier rule of the set,
+	// some the `execute` list of the preloaded rules
 	for i, n := 0, r.Intn(3); i < n; i++ {
+		switch x := r.Intn(100); {
+		case x < 30:
+			d, _ := c14Derive(r, c.Rules[r.Intn(len(c.Rules))], c.Proxy, c.Def)
+			c.Rules = append(c.Rules, d)
+
+			continue
+		case x < 36:
+			d := c14GenGoodRule(r, c.Proxy, c.Def)
+			d.Exec = c14OldRules(1)[0].Exec
+			c.Rules = append(c.Rules, d)
+
+			continue
+		}
+
 		if r.Intn(100) < 85 {
 			c.Rules = append(c.Rules, c14GenGoodRule(r, c.Proxy, c.Def))
 
